@@ -22,6 +22,14 @@
 (*   "leak"       : a seeded call draws from its own stream but one sub-step draws from the      *)
 (*                  global stream (F-16b: seed not forwarded to randomized_svd)                  *)
 (*                                                                                              *)
+(* Configuration surviving between calls.  Which tensor-algebra implementation is selected       *)
+(* (tensorly.tenalg: "core" | "einsum") is process state like the random streams.  A result is    *)
+(* a function of the entry, of how it was seeded, of the stream drawn from AND of the selected    *)
+(* implementation (the two implementations may round differently, so equality ACROSS them is not  *)
+(* demanded); SwitchBackend(b) changes the selection and nothing else.  Hence: a call repeated    *)
+(* after the selection was switched away and back must return what it returned before -- for      *)
+(* seeded calls and for the routines without random choices (tensor algebra itself) alike.        *)
+(*                                                                                              *)
 (* Refinement "object holding a seed".  Estimator objects (regressors, decomposition classes)    *)
 (* take random_state in their constructor and are then used for several fits.  The documented    *)
 (* meaning of an INTEGER random_state is a value, not a stream: every fit of the object -- and   *)
@@ -38,13 +46,15 @@ CONSTANTS Seeds,      \* set of positive integers usable as seeds
           Entries,    \* set of entry-point classes
           Random,     \* [Entries -> BOOLEAN] does the entry make random choices
           Seedable,   \* subset of Entries: accepts a random_state
+          Backends,   \* set of selectable tensor-algebra implementations
+          InitBackend,\* the one selected at the start
           Objs,       \* set of estimator objects, each constructed with an INTEGER random_state
           ObjSeed,    \* [Objs -> Seeds] that integer
           ObjEntries, \* subset of Seedable: entry points that are classes (construct once, fit many times)
           MaxOps,     \* bound on the number of operations
           Variant     \* "spec" | "ignore_seed" | "leak" | "obj_holds_stream"
 
-VARIABLES S,      \* [global : stream, gens : [Gens -> stream], objs : [Objs -> stream]]
+VARIABLES S,      \* [global : stream, gens : [Gens -> stream], objs : [Objs -> stream], tenalg : Backends]
           calls,  \* history: set of records of every call made so far
           glog,   \* history: [Gens -> Seq([e, res])] what was called on each generator, in order
           nops    \* number of operations so far
@@ -60,10 +70,11 @@ NoStream     == [seed |-> 0, pos |-> <<>>]        \* also the (unknown, OS-entro
 PTag         == <<"env", "perturb">>
 
 InitS == [global |-> NoStream, gens |-> [g \in Gens |-> Fresh(GenSeed[g])],
-          objs |-> [o \in Objs |-> Fresh(ObjSeed[o])]]
+          objs |-> [o \in Objs |-> Fresh(ObjSeed[o])], tenalg |-> InitBackend]
 
 StepPerturb(s)    == [s EXCEPT !.global = Adv(@, PTag)]
 StepReseed(s, sd) == [s EXCEPT !.global = Fresh(sd)]
+StepSwitch(s, b)  == [s EXCEPT !.tenalg = b]
 
 \* how a call is seeded
 ArgNone   == [k |-> "none", s |-> 0, g |-> "none", o |-> "none"]
@@ -84,8 +95,8 @@ Leaks(a)     == Variant = "leak" /\ a.k # "none"
 
 \* the returned value: a function of the entry, of how it was seeded and of the stream(s) drawn from
 Result(s, e, a) ==
-    IF ~Random[e] THEN [e |-> e, k |-> "det", src |-> NoStream, extra |-> NoStream]
-    ELSE [e |-> e, k |-> a.k, src |-> Source(s, a), extra |-> IF Leaks(a) THEN s.global ELSE NoStream]
+    IF ~Random[e] THEN [e |-> e, k |-> "det", src |-> NoStream, extra |-> NoStream, cfg |-> s.tenalg]
+    ELSE [e |-> e, k |-> a.k, src |-> Source(s, a), extra |-> IF Leaks(a) THEN s.global ELSE NoStream, cfg |-> s.tenalg]
 
 \* the streams after the call
 After(s, e, a) ==
@@ -100,7 +111,7 @@ After(s, e, a) ==
 \* what identifies "the same seeding" of two calls
 Key(s, a) == SpecSource(s, a)
 
-CallRec(s, e, a) == [e |-> e, k |-> a.k, o |-> a.o, key |-> Key(s, a), res |-> Result(s, e, a),
+CallRec(s, e, a) == [e |-> e, k |-> a.k, o |-> a.o, cfg |-> s.tenalg, key |-> Key(s, a), res |-> Result(s, e, a),
                      gpre |-> s.global, gpost |-> After(s, e, a).global]
 NextGlog(gl, s, e, a) == IF a.k = "gen" THEN [gl EXCEPT ![a.g] = Append(@, [e |-> e, res |-> Result(s, e, a)])] ELSE gl
 
@@ -112,6 +123,7 @@ Init == /\ S = InitS
 
 Perturb   == /\ nops < MaxOps /\ S' = StepPerturb(S)   /\ nops' = nops + 1 /\ UNCHANGED <<calls, glog>>
 Reseed(s) == /\ nops < MaxOps /\ S' = StepReseed(S, s) /\ nops' = nops + 1 /\ UNCHANGED <<calls, glog>>
+SwitchBackend(b) == /\ nops < MaxOps /\ b # S.tenalg /\ S' = StepSwitch(S, b) /\ nops' = nops + 1 /\ UNCHANGED <<calls, glog>>
 
 Call(e, a) == /\ nops < MaxOps
               /\ S' = After(S, e, a)
@@ -127,6 +139,7 @@ CloneFit(e, o) == e \in ObjEntries /\ o \in Objs /\ Call(e, ArgObj(o))   \* fit 
 
 Next == \/ Perturb
         \/ \E s \in Seeds : Reseed(s)
+        \/ \E b \in Backends : SwitchBackend(b)
         \/ \E e \in Entries : CallNone(e)
         \/ \E e \in Seedable, s \in Seeds : CallInt(e, s)
         \/ \E e \in Seedable, g \in Gens : CallGen(e, g)
@@ -140,13 +153,14 @@ Spec == Init /\ [][Next]_vars
 TypeOK == /\ S.global.seed \in Seeds \cup {0}
           /\ \A g \in Gens : S.gens[g].seed = GenSeed[g]
           /\ nops \in 0..MaxOps
+          /\ S.tenalg \in Backends
           /\ Cardinality(calls) <= nops
 
 \* the same entry called twice with the same integer seed returns the same result, whatever the
 \* global stream was or did in between (gpre of the two calls is unconstrained)
 SameSeedSameResult ==
     \A c1, c2 \in calls :
-        (c1.k = "int" /\ c2.k = "int" /\ c1.e = c2.e /\ c1.key = c2.key) => c1.res = c2.res
+        (c1.k = "int" /\ c2.k = "int" /\ c1.e = c2.e /\ c1.key = c2.key /\ c1.cfg = c2.cfg) => c1.res = c2.res
 
 \* a call given an integer seed leaves the global stream untouched
 IntSeedLeavesGlobal ==
@@ -170,7 +184,8 @@ TwinGeneratorsAgree ==
     \A g, h \in Gens :
         GenSeed[g] = GenSeed[h] =>
             /\ \A n \in 0..Len(glog[g]) :
-                   (n <= Len(glog[h]) /\ SameCalls(g, h, n)) => \A j \in 1..n : glog[g][j].res = glog[h][j].res
+                   (n <= Len(glog[h]) /\ SameCalls(g, h, n)) =>
+                       \A j \in 1..n : glog[g][j].res.cfg = glog[h][j].res.cfg => glog[g][j].res = glog[h][j].res
             /\ (Len(glog[g]) = Len(glog[h]) /\ SameCalls(g, h, Len(glog[g]))) => S.gens[g] = S.gens[h]
 
 \* a generator-seeded call draws from that generator only
@@ -181,13 +196,22 @@ GenCallOwnStreamOnly ==
 
 \* entries without random choices return identical results on repeated calls
 DeterministicNoSeed ==
-    \A c1, c2 \in calls : (~Random[c1.e] /\ c1.e = c2.e) => c1.res = c2.res
+    \A c1, c2 \in calls : (~Random[c1.e] /\ c1.e = c2.e /\ c1.cfg = c2.cfg) => c1.res = c2.res
 
 \* (model sanity) an unseeded call is a function of the global stream: re-seeding the global stream
 \* and repeating the same consumption reproduces result and end state
 ReseedReproducible ==
     \A c1, c2 \in calls :
-        (c1.k = "none" /\ c2.k = "none" /\ c1.e = c2.e /\ c1.key = c2.key) => (c1.res = c2.res /\ c1.gpost = c2.gpost)
+        (c1.k = "none" /\ c2.k = "none" /\ c1.e = c2.e /\ c1.key = c2.key /\ c1.cfg = c2.cfg) => (c1.res = c2.res /\ c1.gpost = c2.gpost)
+
+\* switching the tensor-algebra implementation touches no stream
+SwitchLeavesStreams ==
+    [][(\E b \in Backends : SwitchBackend(b)) => (S'.global = S.global /\ S'.gens = S.gens /\ S'.objs = S.objs)]_vars
+
+\* witness: a routine without random choices called under one implementation, then after switching away AND BACK
+WitnessSwitchedAndBack ==
+    \E c1, c2 \in calls : ~Random[c1.e] /\ c1.e = c2.e /\ c1.cfg # c2.cfg /\ S.tenalg = c1.cfg /\ nops >= 4
+NoWitnessSwitch == ~WitnessSwitchedAndBack
 
 \* witnesses (used negated in RngStreamsMC_witness.cfg: TLC must find them, so the implications above
 \* are exercised with a true antecedent)
